@@ -120,13 +120,14 @@ ReqsUpFolder ==
   \cup {Rq("upfolder", 0, Absent, A, Absent, Absent, Absent) @@ [item |-> [folder |-> f, count |-> c, raw |-> r]]
      : f \in {0, 1}, c \in {1, 2}, r \in {<<0,0,1,102>>, <<0,0,5,102>>, <<0,0>>}}
 AcctLogins == Sigma0 \cup SigmaT \cup {A, <<46,46,47>> \o UsersBak \o <<47,97,100,109,105,110>>, <<46,46,47>> \o UsersX \o <<47,97>>}
-AcctSeqs(L) == { << [op |-> "create350", login |-> L, new |-> <<>>] >>,
-                 << [op |-> "create349", login |-> L, new |-> <<>>] >>,
-                 << [op |-> "create350", login |-> L, new |-> <<>>], [op |-> "update", login |-> L, new |-> <<>>] >>,
-                 << [op |-> "create350", login |-> A, new |-> <<>>], [op |-> "rename", login |-> A, new |-> L] >>,
-                 << [op |-> "create350", login |-> L, new |-> <<>>], [op |-> "delete351", login |-> L, new |-> <<>>] >>,
-                 << [op |-> "create349", login |-> L, new |-> <<>>], [op |-> "delete349", login |-> L, new |-> <<>>] >>,
-                 << [op |-> "delete351", login |-> L, new |-> <<>>] >> }
+Rst == [op |-> "restart", login |-> <<>>, new |-> <<>>]     \* the account manager is started again on the same directory
+AcctSeqs(L) == { << [op |-> "create350", login |-> L, new |-> <<>>], Rst >>,
+                 << [op |-> "create349", login |-> L, new |-> <<>>], Rst >>,
+                 << [op |-> "create350", login |-> L, new |-> <<>>], [op |-> "update", login |-> L, new |-> <<>>], Rst >>,
+                 << [op |-> "create350", login |-> A, new |-> <<>>], [op |-> "rename", login |-> A, new |-> L], Rst >>,
+                 << [op |-> "create350", login |-> L, new |-> <<>>], [op |-> "delete351", login |-> L, new |-> <<>>], Rst >>,
+                 << [op |-> "create349", login |-> L, new |-> <<>>], [op |-> "delete349", login |-> L, new |-> <<>>], Rst >>,
+                 << [op |-> "delete351", login |-> L, new |-> <<>>], Rst >> }
 (* tmp: where $TMPDIR points while the account request runs (0 an existing directory outside the trees, 1 nowhere) *)
 ReqsAcct == {Rq("acct", o, Absent, Absent, Absent, Absent, Absent) @@ [ops |-> sq, tmp |-> 0] : o \in {0, 1}, sq \in UNION {AcctSeqs(L) : L \in AcctLogins}}
             \cup {Rq("acct", 0, Absent, Absent, Absent, Absent, Absent) @@ [ops |-> sq, tmp |-> 1] : sq \in UNION {AcctSeqs(L) : L \in {A, <<46,46,47,120>>, <<>>}}}
@@ -193,8 +194,9 @@ SetToSeq(S) == IF S = {} THEN <<>> ELSE LET x == CHOOSE y \in S : TRUE IN <<x>> 
 
 WorldJson(T, rp, ign) ==
   [tree |-> SetToSeq({[p |-> SubSeq(q, Len(rp) + 1, Len(q)),
-                       k |-> IF T[q].k = "dir" THEN "dir" ELSE IF HasPrefix(Base(q), InfoPfx) THEN "info" ELSE "file",
-                       s |-> T[q].s, c |-> T[q].c, ty |-> T[q].ty] : q \in {x \in DOMAIN T : Inside(x, rp) /\ x # rp}}),
+                       k |-> IF T[q].k \in {"dir", "link"} THEN T[q].k ELSE IF HasPrefix(Base(q), InfoPfx) THEN "info" ELSE "file",
+                       s |-> T[q].s, c |-> T[q].c, ty |-> T[q].ty,
+                       t |-> IF T[q].k = "link" THEN SubSeq(T[q].t, Len(rp) + 1, Len(T[q].t)) ELSE <<>>] : q \in {x \in DOMAIN T : Inside(x, rp) /\ x # rp}}),
    ignore |-> ign]
 
 Init07 == /\ tree = Tree07 /\ rootp = Root07 /\ usersp = Users07 /\ ignore = "default" /\ mem = Mem07
@@ -223,7 +225,8 @@ InitTrees == <<
   {[p |-> <<A>>, n |-> DirN], [p |-> <<A, NC>>, n |-> FileN(4)], [p |-> <<InfoPfx \o A>>, n |-> InfoN(77, 2, Fldr)],
    [p |-> <<Btxt>>, n |-> FileN(5)], [p |-> <<InfoPfx \o Btxt>>, n |-> InfoN(82, 3, TEXT)], [p |-> <<RsrcPfx \o Btxt>>, n |-> FileN(7)],
    [p |-> <<NC>>, n |-> FileN(1)], [p |-> <<NHid>>, n |-> FileN(2)], [p |-> <<NAt>>, n |-> FileN(6)],
-   [p |-> <<NInc>>, n |-> FileN(10)], [p |-> <<PInc>>, n |-> FileN(9)], [p |-> <<Ae>>, n |-> FileN(8)]},
+   [p |-> <<NInc>>, n |-> FileN(10)], [p |-> <<PInc>>, n |-> FileN(9)], [p |-> <<Ae>>, n |-> FileN(8)],
+   [p |-> <<A, Btxt>>, n |-> LinkN(<<RootN, Btxt>>)]},     \* an alias (in a/) of a file that has forks and a comment
   {[p |-> <<D1>>, n |-> DirN], [p |-> <<D1, Btxt>>, n |-> FileN(5)], [p |-> <<A>>, n |-> FileN(3)], [p |-> <<InfoPfx \o A>>, n |-> InfoN(78, 3, TEXT)],
    [p |-> <<Ae>>, n |-> DirN], [p |-> <<Ae, NInc>>, n |-> FileN(10)],
    [p |-> <<NC>>, n |-> FileN(1)], [p |-> <<InfoPfx \o NC>>, n |-> InfoN(77, 2, PDF)]},   \* a stored type that is not the extension's default
@@ -282,6 +285,7 @@ ViewsAgreeOnSizeType ==
 LastStep == hist'[Len(hist')]
 ForksTravel == [][ForksTravelObs(LastStep, tree, tree', rootp)]_mcvars
 ForksStay == [][ForksStayObs(LastStep, tree, tree', rootp)]_mcvars
+BystandersKeepForks == [][BystanderForksObs(LastStep, tree, tree', rootp)]_mcvars
 NewFolderNeverReplaces == [][NewFolderNeverReplacesObs(LastStep, tree, tree')]_mcvars
 OpsChangeExactly == [][WellFormed(LastStep, tree, rootp) => Core(tree', tree) = Core(Requested(LastStep, tree, rootp), tree)]_mcvars
 StaysInRoot == \A q \in DOMAIN tree : Inside(q, rootp)
